@@ -55,6 +55,14 @@ def run(ctx):
             {"e": "tick", "g": 0, "t": 5}, {"e": "tick", "g": 0, "t": 10}, {"e": "pong", "g": 1, "t": 11}, {"e": "tick", "g": 0, "t": 16}, {"e": "tick", "g": 0, "t": 21}, {"e": "tick", "g": 0, "t": 26}]})
         stim.append({"t": len(stim) + 1, "p": 4, "keepAlive": True, "maxRetries": mr, "events": [
             {"e": "tick", "g": 0, "t": 4}, {"e": "tick", "g": 0, "t": 5}, {"e": "pong", "g": 1, "t": 5}, {"e": "tick", "g": 0, "t": 9}, {"e": "tick", "g": 0, "t": 10}]})
+    # late answers: k unanswered pings (one per idle period), then the pong of an EARLIER ping g < k arrives, then silence
+    for mr in (1, 2, 3):
+        for k in range(2, mr + 2):
+            for g in range(1, k):
+                ev = [{"e": "tick", "g": 0, "t": 5 * j} for j in range(1, k + 1)]
+                ev.append({"e": "pong", "g": g, "t": 5 * k + 1})
+                ev += [{"e": "tick", "g": 0, "t": 5 * k + 1 + 5 * j} for j in range(1, mr + 3)]
+                stim.append({"t": len(stim) + 1, "p": 4, "keepAlive": True, "maxRetries": mr, "events": ev})
     spath = os.path.join(ctx.work, "stimuli.ndjson")
     vf.write_ndjson(spath, stim)
     out = os.path.join(ctx.work, "traces.ndjson")
